@@ -547,6 +547,13 @@ func SetValueT(
 	isStatic bool,
 ) error {
 
+	// an anonymous receiver (a literal: [1].push(2)) has no variable to
+	// update; with an empty name the key would be the enclosing method's own
+	// entry and the method would be overwritten by the value
+	if variable == "" {
+		return nil
+	}
+
 	if len(variable) > 0 && variable[0] == '*' {
 		variable = variable[1:]
 	}
